@@ -40,6 +40,14 @@ PROPS = {
              "thorough": {"checks": 4000, "shards": 16, "timeout": 1800}},
         ],
     },
+    "C17": {
+        "level": "exploration",
+        "jobs": [
+            {"test": "TestC17", "variant": "std",
+             "quick": {"checks": 150, "shards": 12, "timeout": 400},
+             "thorough": {"checks": 3000, "shards": 16, "timeout": 1800}},
+        ],
+    },
     "C19": {
         "level": "exploration",
         "jobs": [
@@ -49,6 +57,14 @@ PROPS = {
             {"test": "TestC19", "variant": "race",
              "quick": {"checks": 60, "shards": 4, "timeout": 400},
              "thorough": {"checks": 1500, "shards": 4, "timeout": 1800}},
+        ],
+    },
+    "C11": {
+        "level": "exploration",
+        "jobs": [
+            {"test": "TestC11", "variant": "std",
+             "quick": {"checks": 300, "shards": 12, "timeout": 400},
+             "thorough": {"checks": 8000, "shards": 16, "timeout": 1800}},
         ],
     },
     "C13": {
